@@ -61,6 +61,19 @@ func (f *frame) external(n *node, callee *ssa.Function, full string, args []Val,
 				// 0 <= r <= len(s)-len(sub), needs len(sub) <= len(s)
 				g.Assume(or(eq(r, bvLit(^uint64(0), 64)),
 					and("(bvule "+args[1].C[2]+" "+room+")", "(bvsge "+r+" "+bvLit(0, 64)+")", "(bvsle "+r+" (bvsub "+room+" "+args[1].C[2]+"))")))
+				// a literal needle: where it is found the text has its bytes; when it is not found
+				// the text does not end with it
+				if lit := args[1]; lit.HasLit && len(lit.Lit) >= 1 && len(lit.Lit) <= 16 {
+					s0, off := args[0].C[0], args[0].C[1]
+					var at, tail []string
+					n := uint64(len(lit.Lit))
+					for i := 0; i < len(lit.Lit); i++ {
+						at = append(at, eq("(select "+s0+" (bvadd "+off+" (bvadd "+r+" "+bvLit(uint64(i), 64)+")))", bvLit(uint64(lit.Lit[i]), 8)))
+						tail = append(tail, eq("(select "+s0+" (bvadd "+off+" (bvadd (bvsub "+room+" "+bvLit(n, 64)+") "+bvLit(uint64(i), 64)+")))", bvLit(uint64(lit.Lit[i]), 8)))
+					}
+					g.Assume(implies(not(eq(r, bvLit(^uint64(0), 64))), and(at...)))
+					g.Assume(implies(eq(r, bvLit(^uint64(0), 64)), not(and(append([]string{"(bvuge " + room + " " + bvLit(n, 64) + ")"}, tail...)...))))
+				}
 			} else {
 				g.Assume(or(eq(r, bvLit(^uint64(0), 64)), and("(bvsge "+r+" "+bvLit(0, 64)+")", "(bvslt "+r+" "+room+")")))
 			}
